@@ -14,7 +14,7 @@ from queue import Empty, Full
 from . import evlog
 
 SCALE = 0.02
-PROFILES = ["natural", "jitter", "straggler", "slow_dispatcher", "slow_feeder", "slow_workers", "late_start", "burst", "pct"]
+PROFILES = ["natural", "jitter", "straggler", "slow_dispatcher", "slow_feeder", "slow_workers", "late_start", "burst", "pct", "late_check"]
 
 _S = dict(installed=False, profile="natural", seed=0, scale=SCALE, qn=0, orig={}, stage_pid=None)
 _rng = [None, None]
@@ -81,6 +81,13 @@ def delay(point, role=None):
     elif p == "late_start":
         if point == "run":
             time.sleep(3 * to + 0.02 * r.random())
+    elif p == "late_check":
+        # a worker is descheduled between its receive time-out and its look at the shutdown flag; the producer is slow,
+        # so that workers do time out while items are still to come
+        if point == "after_empty" and role == "worker":
+            time.sleep(0.03 + 0.05 * r.random())
+        elif role == "owner" and point == "put":
+            time.sleep(to * (1.5 + r.random()))
     elif p == "pct":
         # random priority per process, a few random priority changes
         st = _S.setdefault("pct_%d" % os.getpid(), dict(rank=r.randrange(6), n=0, changes=sorted(r.sample(range(1, 200), 3))))
@@ -145,6 +152,7 @@ def _q_get(self, block=True, timeout=None):
         r = _S["orig"]["q_get"](self, block, None if timeout is None else timeout * _S["scale"])
     except Empty:
         evlog.ev("get_empty", q=q, role=role)
+        delay("after_empty", role)
         raise
     evlog.ev("get_ret", q=q, item=summ(r), role=role)
     delay("after_get", role)
@@ -205,6 +213,12 @@ def _e_set(self):
     return _S["orig"]["e_set"](self)
 
 
+def _e_is_set(self):
+    r = _S["orig"]["e_is_set"](self)
+    evlog.ev("is_set", v=bool(r))
+    return r
+
+
 def install(profile="natural", seed=0, scale=SCALE):
     _S.update(profile=profile, seed=seed, scale=scale, qn=0)
     for k in [k for k in _S if k.startswith("pct_")]:
@@ -215,7 +229,7 @@ def install(profile="natural", seed=0, scale=SCALE):
     Q = mpq.Queue
     o.update(
         q_init=Q.__init__, q_put=Q.put, q_get=Q.get, q_reset=Q._reset, q_close=Q.close, q_join_thread=Q.join_thread,
-        p_run=mpp.BaseProcess.run, p_start=mpp.BaseProcess.start, p_join=mpp.BaseProcess.join, e_set=mps.Event.set,
+        p_run=mpp.BaseProcess.run, p_start=mpp.BaseProcess.start, p_join=mpp.BaseProcess.join, e_set=mps.Event.set, e_is_set=mps.Event.is_set,
     )
     Q.__init__ = _q_init
     Q.put = _q_put
@@ -227,6 +241,7 @@ def install(profile="natural", seed=0, scale=SCALE):
     mpp.BaseProcess.start = _p_start
     mpp.BaseProcess.join = _p_join
     mps.Event.set = _e_set
+    mps.Event.is_set = _e_is_set
     _S["installed"] = True
 
 
@@ -245,4 +260,5 @@ def uninstall():
     mpp.BaseProcess.start = o["p_start"]
     mpp.BaseProcess.join = o["p_join"]
     mps.Event.set = o["e_set"]
+    mps.Event.is_set = o["e_is_set"]
     _S["installed"] = False
